@@ -224,6 +224,49 @@ def fold_bool(t):
     return ('un', 'Not', t) if neg else t
 
 
+def path_truth(p, t):
+    """the truth value of boolean term t on path p: a constant, or a term the path decided (tested, possibly negated,
+    before it was returned: `let ok = a > b; if ok {..}; ok`); None when the path says nothing about it"""
+    t = fold_bool(t)
+    if t[0] == 'const' and t[1] in ('true', 'false'):
+        return t[1] == 'true'
+    neg = False
+    while t[0] == 'un' and t[1] == 'Not':
+        t, neg = t[2], not neg
+    want = strip(t)
+    for a in p.events:
+        if a.kind != 'atom':
+            continue
+        bf = bool_fact(a)
+        if bf and strip(bf[0]) == want:
+            return bf[1] != neg
+        n1 = norm_cmp(a)
+        if n1 and want[0] == 'bin' and want[1] in CMP_NEG:
+            # the same comparison decided in another spelling
+            l, r = strip(want[2]), strip(want[3])
+            for op, x, y in ((n1[0], n1[1], n1[2]), (CMP_FLIP[n1[0]], n1[2], n1[1])):
+                if x == l and y == r:
+                    if op == want[1]:
+                        return not neg
+                    if op == CMP_NEG[want[1]]:
+                        return neg
+    return None
+
+
+def through_new_helper(facts, t):
+    """a value that is the result of a straight-line helper which did not exist at the pinned commit (a small constructor handed to
+    a combinator as a function item is called, not inlined): the helper's own return value with the arguments substituted"""
+    import mirlib
+    if t[0] == 'call' and facts.is_new_fn(t[1]) and t[1] in facts.by:
+        cf = facts.fn(facts.by[t[1]])
+        ps = [q for q in cf.paths() if q.end == 'return']
+        if len(ps) == 1 and not [e for e in ps[0].events if e.kind == 'atom']:
+            rv = [e for e in ps[0].events if e.kind == 'ret'][0].d['value']
+            amap = {i + 1: a for i, a in enumerate(t[2])}
+            return mirlib.subst_term(rv, amap, 0)
+    return t
+
+
 def opt_truth(t):
     """(option subject, 'Some'|'None') such that boolean term t is true exactly when the subject is that variant
     (x.is_some(), x.is_none(), and their negations); None otherwise"""
